@@ -193,8 +193,9 @@ class Inbound:
                     if self.incremental and self.serial != soa.serial:
                         raise dns.exception.FormError("unexpected end of IXFR sequence")
                     self.txn.replace(name, rdataset)
-                    self.txn.commit()
-                    self.txn = None
+                    # The commit waits until the rest of the message has been
+                    # checked, so that an error is never reported for a
+                    # transfer that was applied.
                     self.done = True
                 else:
                     #
@@ -249,6 +250,9 @@ class Inbound:
             # get the proper "truncated" response
             #
             raise dns.exception.FormError("unexpected end of UDP IXFR")
+        if self.done and self.txn is not None:
+            self.txn.commit()
+            self.txn = None
         return self.done
 
     #
